@@ -323,13 +323,15 @@ func init() {
 			"custom-coin stakes are outside the registered bound",
 		}, txAssumptions...)
 		sc := func(kv ...interface{}) map[string]int64 { return cfg(append([]interface{}{"concretePrices", 1}, kv...)...) }
-		stq := HSpec{Pkg: txPkg, Func: "VerifHarness_Stake_Deliver", Tier: "quick", Configs: []map[string]int64{sc("kind", 0), sc("kind", 1), sc("kind", 2), sc("kind", 3), sc("kind", 4), sc("kind", 0, "waitlisted", 1)},
-			Bounds: "one CheckTx+DeliverTx of Unbond / MoveStake / Lock / Delegate / Unbond-under-LockStake by A; value, stake, balances symbolic"}
+		stq := HSpec{Pkg: txPkg, Func: "VerifHarness_Stake_Deliver", Tier: "quick", Configs: []map[string]int64{sc("kind", 0), sc("kind", 1), sc("kind", 2), sc("kind", 3), sc("kind", 4), sc("kind", 0, "waitlisted", 1), sc("kind", 5), sc("kind", 5, "foreign", 1), sc("kind", 6)},
+			Bounds: "one CheckTx+DeliverTx of Unbond / MoveStake / Lock / Delegate / Unbond-under-LockStake / SetCandidateOn / SetCandidateOff by A; value, stake, balances, jail height symbolic"}
 		stt := HSpec{Pkg: txPkg, Func: "VerifHarness_Stake_Deliver", Tier: "thorough", Configs: []map[string]int64{sc("kind", 1, "waitlisted", 1), cfg("kind", 0), cfg("kind", 1), cfg("kind", 3)},
 			Bounds: "waitlisted move; symbolic price table"}
-		for _, id := range []string{"C16", "C01", "C02", "C03", "C05", "C06", "C07"} {
+		for _, id := range []string{"C16", "C18", "C01", "C02", "C03", "C05", "C06", "C07"} {
 			add(id, sa, stq)
 		}
+		add("C18", append([]string{"absence window: a concrete pattern of 10 misses plus 4 arbitrary bits (the current height's slot among them), i.e. every count from 10 to 14; grace periods not in force"}, commonAssumptions...),
+			HSpec{Pkg: "coreV2/state", Func: "VerifHarness_C18_AbsenceWindow", Tier: "quick", Bounds: "one SetValidatorAbsent at height 1000 from 16 windows around the 12-of-24 threshold"})
 		add("C16", sa, stt)
 	}
 
@@ -356,6 +358,20 @@ func init() {
 			Bounds: "one CheckTx+DeliverTx of CreateSwapPool (bancor coin, token) with arbitrary volumes; sqrt by contract"}
 		for _, id := range []string{"C07", "C22", "C13", "C01", "C02", "C03", "C05", "C06"} {
 			add(id, txAssumptions, cp)
+		}
+	}
+
+	// ---------------------------------------------------------- coin registry transactions (C22)
+	{
+		rc := func(kv ...interface{}) map[string]int64 { return cfg(append([]interface{}{"concretePrices", 1}, kv...)...) }
+		reg := HSpec{Pkg: txPkg, Func: "VerifHarness_CoinRegistry_Deliver", Tier: "quick", Configs: []map[string]int64{
+			rc("kind", 0, "ticker", 0), rc("kind", 0, "ticker", 1), rc("kind", 1, "ticker", 0), rc("kind", 1, "ticker", 2),
+			rc("kind", 2, "ticker", 1), rc("kind", 2, "ticker", 1, "signerB", 1), rc("kind", 2, "ticker", 0),
+			rc("kind", 3, "ticker", 2), rc("kind", 3, "ticker", 2, "signerB", 1),
+			rc("kind", 4, "ticker", 1), rc("kind", 4, "ticker", 2, "signerB", 1), rc("kind", 4, "ticker", 0)},
+			Bounds: "one CheckTx+DeliverTx of CreateCoin / CreateToken / RecreateCoin / RecreateToken / EditCoinOwner for a free ticker or the existing tickers, by the ticker owner or another account; amounts, reserve, max supply, crr symbolic; one recreation (version 1), repeated recreation outside the bound"}
+		for _, id := range []string{"C22", "C01", "C02", "C03", "C05", "C06", "C07"} {
+			add(id, txAssumptions, reg)
 		}
 	}
 
